@@ -449,3 +449,182 @@ Section Rename.
     rewrite !map_map. reflexivity.
   Qed.
 End Rename.
+
+(** * Solo runs: the id of the only track is immaterial *)
+(* the same operation on the track named [a] *)
+Definition retarget (a : nat) (o : op) : op :=
+  match o with
+  | OUpdate _ s q d c => OUpdate a s q d c
+  | OUnschedule _ => OUnschedule a
+  | OMute _ => OMute a
+  | OUnmute _ => OUnmute a
+  | ONudge _ x => ONudge a x
+  | _ => o
+  end.
+
+Lemma rn_retarget f a o : rn_op f (retarget a o) = retarget (f a) o.
+Proof. destruct o; reflexivity. Qed.
+
+(* every operation of the solo history of track i names track i *)
+Lemma solo_targets i h : forall k, map (retarget i) (solo i k h) = solo i k h.
+Proof.
+  induction h as [|o r IH]; intros k; [reflexivity|]. cbn [solo]. rewrite map_app, IH. f_equal.
+  destruct o; cbn [op_keep]; try reflexivity;
+    match goal with |- context [(?t =? i)%nat] => destruct (t =? i)%nat eqn:E; [apply Nat.eqb_eq in E; subst; reflexivity|reflexivity] end.
+Qed.
+
+Lemma rn_solo f i k h : map (rn_op f) (solo i k h) = map (retarget (f i)) (solo i k h).
+Proof.
+  rewrite <- (solo_targets i h k) at 1. rewrite map_map. apply map_ext. intros o. apply rn_retarget.
+Qed.
+
+Lemma rn_cfg_noops f cfg : cb_noops cfg = true -> rn_cfg f cfg = cfg.
+Proof.
+  intros H. destruct cfg as [ta cb la mt sw ig df fu]. unfold rn_cfg, cb_noops in *. cbn in *. f_equal.
+  induction cb as [|[rk ops] r IH]; [reflexivity|]. cbn in *. destruct ops; [|discriminate]. rewrite (IH H). reflexivity.
+Qed.
+
+Definition shift (k x : nat) : nat := (x + k)%nat.
+Lemma shift_mono k a b : (a < b)%nat -> (shift k a < shift k b)%nat.
+Proof. unfold shift. lia. Qed.
+Lemma shift_S k m : (0 <= m)%nat -> shift k (S m) = S (shift k m).
+Proof. reflexivity. Qed.
+
+(* the solo run of a track scheduled as number i+k is the solo run of the track scheduled as number i, renamed *)
+Theorem solo_shift cfg i k h : cb_noops cfg = true ->
+  tick_calls cfg (tl_at (i + k)) (map (retarget (i + k)%nat) (solo i 0 h)) = tick_calls cfg (tl_at i) (solo i 0 h)
+  /\ run_state cfg (tl_at (i + k)) (map (retarget (i + k)%nat) (solo i 0 h)) = rn_tl (shift k) (run_state cfg (tl_at i) (solo i 0 h))
+  /\ all_ticks_ok cfg (tl_at (i + k)) (map (retarget (i + k)%nat) (solo i 0 h)) = all_ticks_ok cfg (tl_at i) (solo i 0 h).
+Proof.
+  intros C.
+  pose proof (rn_tick_calls (shift k) (shift_mono k) 0%nat (shift_S k) cfg (solo i 0 h) (tl_at i) (Nat.le_0_l _)) as T.
+  pose proof (rn_run_state (shift k) (shift_mono k) 0%nat (shift_S k) cfg (solo i 0 h) (tl_at i) (Nat.le_0_l _)) as R.
+  pose proof (rn_all_ticks_ok (shift k) (shift_mono k) 0%nat (shift_S k) cfg (solo i 0 h) (tl_at i) (Nat.le_0_l _)) as A.
+  rewrite (rn_cfg_noops _ _ C), rn_solo in T, R, A.
+  change (rn_tl (shift k) (tl_at i)) with (tl_at (i + k)) in T, R, A. change (shift k i) with (i + k)%nat in T, R, A.
+  exact (conj T (conj R A)).
+Qed.
+
+(* in either direction *)
+Theorem solo_retarget cfg i i' h : cb_noops cfg = true ->
+  tick_calls cfg (tl_at i') (map (retarget i') (solo i 0 h)) = tick_calls cfg (tl_at i) (solo i 0 h).
+Proof.
+  intros C. destruct (Nat.le_ge_cases i i') as [L|L].
+  - replace i' with (i + (i' - i))%nat by lia. apply solo_shift. exact C.
+  - pose proof (rn_tick_calls (shift (i - i')) (shift_mono _) 0%nat (shift_S _) cfg (map (retarget i') (solo i 0 h)) (tl_at i') (Nat.le_0_l _)) as T.
+    rewrite (rn_cfg_noops _ _ C), map_map in T.
+    rewrite (map_ext _ (retarget (shift (i - i') i')) (fun o => rn_retarget _ _ o)) in T.
+    change (rn_tl (shift (i - i')) (tl_at i')) with (tl_at (i' + (i - i'))) in T. unfold shift in T.
+    replace (i' + (i - i'))%nat with i in T by lia. rewrite solo_targets in T. symmetry. exact T.
+Qed.
+
+Lemma uncoupled_noops cfg : uncoupled cfg = true -> cb_noops cfg = true.
+Proof.
+  unfold uncoupled. intros U. apply andb_true_iff in U as [U _]. apply andb_true_iff in U as [U _].
+  apply andb_true_iff in U as [_ U]. exact U.
+Qed.
+
+(* two joint histories whose solo histories for the observed track agree up to the NAME of the track (it is track i in
+   h, track i' in h') make the same calls for it *)
+Theorem same_solo_renamed_same_calls i i' pc pb cfg h h' :
+  uncoupled cfg = true -> hist_wf i pc pb 0 h = true -> hist_wf i' pc pb 0 h' = true ->
+  all_ticks_ok cfg tl0 h = true -> all_ticks_ok cfg tl0 h' = true ->
+  solo i' 0 h' = map (retarget i') (solo i 0 h) ->
+  map (filter (call_ok pc pb)) (tick_calls cfg tl0 h) = map (filter (call_ok pc pb)) (tick_calls cfg tl0 h').
+Proof.
+  intros U W W' A A' E.
+  destruct (merge_from_empty i pc pb cfg h U W A) as [M _]. destruct (merge_from_empty i' pc pb cfg h' U W' A') as [M' _].
+  rewrite <- M, <- M', E. symmetry. apply solo_retarget. apply uncoupled_noops. exact U.
+Qed.
+
+(** * The history in which track j was never scheduled *)
+(* ids of the tracks scheduled after j move down by one *)
+Definition dn (j t : nat) : nat := if (j <? t)%nat then Nat.pred t else t.
+(* [k]: the id the next schedule call creates in the original history *)
+Definition drop_op (j k : nat) (o : op) : list op :=
+  match o with
+  | OSchedule _ _ _ _ _ _ _ => if (k =? j)%nat then [] else [o]
+  | OUpdate t s q d c => if (t =? j)%nat then [] else [OUpdate (dn j t) s q d c]
+  | OUnschedule t => if (t =? j)%nat then [] else [OUnschedule (dn j t)]
+  | OMute t => if (t =? j)%nat then [] else [OMute (dn j t)]
+  | OUnmute t => if (t =? j)%nat then [] else [OUnmute (dn j t)]
+  | ONudge t x => if (t =? j)%nat then [] else [ONudge (dn j t) x]
+  | _ => [o]
+  end.
+Fixpoint drop_track (j k : nat) (h : list op) : list op :=
+  match h with
+  | [] => []
+  | o :: r => drop_op j k o ++ drop_track j (op_next k o) r
+  end.
+
+Lemma dn_eqb j a b : a <> j -> b <> j -> (dn j a =? dn j b)%nat = (a =? b)%nat.
+Proof.
+  intros Ha Hb. unfold dn. destruct (j <? a)%nat eqn:E1; destruct (j <? b)%nat eqn:E2;
+    destruct (a =? b)%nat eqn:E3; try (apply Nat.eqb_eq); try (apply Nat.eqb_neq); lia.
+Qed.
+Lemma dn_S j k : k <> j -> dn j (S k) = S (dn j k).
+Proof. intros H. unfold dn. destruct (j <? S k)%nat eqn:E1; destruct (j <? k)%nat eqn:E2; lia. Qed.
+Lemma dn_Sj j : dn j (S j) = dn j j.
+Proof. unfold dn. destruct (j <? S j)%nat eqn:E1; destruct (j <? j)%nat eqn:E2; lia. Qed.
+
+Lemma drop_solo i j h : j <> i -> forall k,
+  solo (dn j i) (dn j k) (drop_track j k h) = map (retarget (dn j i)) (solo i k h).
+Proof.
+  intros Hji. induction h as [|o r IH]; intros k; [reflexivity|]. cbn [drop_track solo]. rewrite map_app, <- IH. clear IH.
+  destruct o as [|s q d c rwd nm rp|t s q d c|t| |t|t|t x|q d]; cbn [drop_op op_keep op_next app map]; try reflexivity.
+  - destruct (k =? j)%nat eqn:E.
+    + apply Nat.eqb_eq in E. subst k. assert (Ei : (j =? i)%nat = false) by (apply Nat.eqb_neq; exact Hji).
+      rewrite Ei. cbn [app map]. rewrite dn_Sj. reflexivity.
+    + apply Nat.eqb_neq in E. cbn [app solo op_keep op_next]. rewrite (dn_eqb j k i E (not_eq_sym Hji)), (dn_S j k E).
+      destruct (k =? i)%nat; reflexivity.
+  - destruct (t =? j)%nat eqn:E.
+    + apply Nat.eqb_eq in E. subst t. assert (Ei : (j =? i)%nat = false) by (apply Nat.eqb_neq; exact Hji). rewrite Ei. reflexivity.
+    + apply Nat.eqb_neq in E. cbn [app solo op_keep op_next]. rewrite (dn_eqb j t i E (not_eq_sym Hji)).
+      destruct (t =? i)%nat eqn:E2; [apply Nat.eqb_eq in E2; subst t|]; reflexivity.
+  - destruct (t =? j)%nat eqn:E.
+    + apply Nat.eqb_eq in E. subst t. assert (Ei : (j =? i)%nat = false) by (apply Nat.eqb_neq; exact Hji). rewrite Ei. reflexivity.
+    + apply Nat.eqb_neq in E. cbn [app solo op_keep op_next]. rewrite (dn_eqb j t i E (not_eq_sym Hji)).
+      destruct (t =? i)%nat eqn:E2; [apply Nat.eqb_eq in E2; subst t|]; reflexivity.
+  - destruct (t =? j)%nat eqn:E.
+    + apply Nat.eqb_eq in E. subst t. assert (Ei : (j =? i)%nat = false) by (apply Nat.eqb_neq; exact Hji). rewrite Ei. reflexivity.
+    + apply Nat.eqb_neq in E. cbn [app solo op_keep op_next]. rewrite (dn_eqb j t i E (not_eq_sym Hji)).
+      destruct (t =? i)%nat eqn:E2; [apply Nat.eqb_eq in E2; subst t|]; reflexivity.
+  - destruct (t =? j)%nat eqn:E.
+    + apply Nat.eqb_eq in E. subst t. assert (Ei : (j =? i)%nat = false) by (apply Nat.eqb_neq; exact Hji). rewrite Ei. reflexivity.
+    + apply Nat.eqb_neq in E. cbn [app solo op_keep op_next]. rewrite (dn_eqb j t i E (not_eq_sym Hji)).
+      destruct (t =? i)%nat eqn:E2; [apply Nat.eqb_eq in E2; subst t|]; reflexivity.
+  - destruct (t =? j)%nat eqn:E.
+    + apply Nat.eqb_eq in E. subst t. assert (Ei : (j =? i)%nat = false) by (apply Nat.eqb_neq; exact Hji). rewrite Ei. reflexivity.
+    + apply Nat.eqb_neq in E. cbn [app solo op_keep op_next]. rewrite (dn_eqb j t i E (not_eq_sym Hji)).
+      destruct (t =? i)%nat eqn:E2; [apply Nat.eqb_eq in E2; subst t|]; reflexivity.
+Qed.
+
+Lemma drop_wf i j pc pb h : j <> i -> forall k, hist_wf i pc pb k h = true ->
+  hist_wf (dn j i) pc pb (dn j k) (drop_track j k h) = true.
+Proof.
+  intros Hji. induction h as [|o r IH]; intros k W; [reflexivity|]. cbn [hist_wf] in W. apply andb_true_iff in W as [W1 W2].
+  specialize (IH _ W2). cbn [drop_track].
+  destruct o as [|s q d c rwd nm rp|t s q d c|t| |t|t|t x|q d]; cbn [drop_op op_next app hist_wf op_wf] in *; try exact IH.
+  - destruct (k =? j)%nat eqn:E.
+    + apply Nat.eqb_eq in E. subst k. cbn [app]. rewrite <- dn_Sj. exact IH.
+    + apply Nat.eqb_neq in E. cbn [app hist_wf op_wf op_next]. rewrite (dn_eqb j k i E (not_eq_sym Hji)), <- (dn_S j k E), W1. exact IH.
+  - destruct (t =? j)%nat eqn:E; [exact IH|].
+    apply Nat.eqb_neq in E. cbn [app hist_wf op_wf op_next]. rewrite (dn_eqb j t i E (not_eq_sym Hji)), W1. exact IH.
+  - destruct (t =? j)%nat; exact IH.
+  - destruct (t =? j)%nat; exact IH.
+  - destruct (t =? j)%nat; exact IH.
+  - destruct (t =? j)%nat; exact IH.
+Qed.
+
+(* the calls of track i are the same in the run from which another track j - scheduled before OR after i - has been
+   left out altogether *)
+Theorem same_calls_without i j pc pb cfg h : j <> i ->
+  uncoupled cfg = true -> hist_wf i pc pb 0 h = true ->
+  all_ticks_ok cfg tl0 h = true -> all_ticks_ok cfg tl0 (drop_track j 0 h) = true ->
+  map (filter (call_ok pc pb)) (tick_calls cfg tl0 h) = map (filter (call_ok pc pb)) (tick_calls cfg tl0 (drop_track j 0 h)).
+Proof.
+  intros Hji U W A A'.
+  apply (same_solo_renamed_same_calls i (dn j i) pc pb cfg h (drop_track j 0 h) U W); try assumption.
+  - exact (drop_wf i j pc pb h Hji 0%nat W).
+  - exact (drop_solo i j h Hji 0%nat).
+Qed.
